@@ -697,4 +697,71 @@ SEEDS = [
          old="""    fn replace_parents_child(&mut self, parent: u32, old_child: u32, new_child: u32) {
         self.node_mut(new_child).parent = parent;""",
          new="""    fn replace_parents_child(&mut self, parent: u32, old_child: u32, new_child: u32) {""", note='replacement child keeps its old parent link'),
+
+    dict(id='IO2-export-swapped-children', props=['C07'], file='src/key/array.rs',
+         old="""        Self {
+            index,
+            left: node.left,
+            right: node.right,
+        }""",
+         new="""        Self {
+            index,
+            left: node.right,
+            right: node.left,
+        }""", note='frames swap the children: export in descending order'),
+    dict(id='IO3-export-emit-before-left', props=['C07'], file='src/key/array.rs',
+         old="""            if s.left != EMPTY_REF {
+                // go down left
+                let index = s.left;
+                // to skip next time
+                s.left = EMPTY_REF;
+
+                stack.push(StackNode::new(index, self.node(index)));
+            } else {
+                if s.index != EMPTY_REF {
+                    let index = s.index;
+                    // to skip next time
+                    s.index = EMPTY_REF;
+
+                    let node = self.node(index);
+
+                    if node.is_not_expired(time) {
+                        list.push(node.entity.val);
+                    }
+                }
+""",
+         new="""            if s.index != EMPTY_REF {
+                let index = s.index;
+                // to skip next time
+                s.index = EMPTY_REF;
+
+                let node = self.node(index);
+
+                if node.is_not_expired(time) {
+                    list.push(node.entity.val);
+                }
+            }
+            if s.left != EMPTY_REF {
+                // go down left
+                let index = s.left;
+                // to skip next time
+                s.left = EMPTY_REF;
+
+                stack.push(StackNode::new(index, self.node(index)));
+            } else {
+""", note='pre-order instead of in-order'),
+    dict(id='IO4-export-left-not-cleared', props=['C07', 'C10'], file='src/key/array.rs',
+         old="""                let index = s.left;
+                // to skip next time
+                s.left = EMPTY_REF;
+""",
+         new="""                let index = s.left;
+""", note='left child pushed again and again (hang)'),
+
+    dict(id='EN1-map-delete-split-entity', props=['C04'], file='src/map/tree.rs',
+         old="""            self.node_mut(index).entity = entity;
+""",
+         new="""            self.node_mut(index).entity.key = entity.key;
+            self.node_mut(index).entity.val = self.node(nd_right).entity.val.clone();
+""", note='two-children removal takes the key from the successor and the value from the right child'),
 ]
